@@ -113,6 +113,14 @@ def check_eat_data_resets(P, R, rid):
         ok = ok and all(p in wb for p in fall) and bool(fall)
     R.ob(rid, f, wb[0].ast if wb else f.node, ok, text='normal end stores (trest_len, trest) back on the scanner', detail='' if ok else
          'the chunk can end without the partial-delimiter remainder being stored for the next chunk', key_extra='writeback')
+    # "need more data" (return None) is only answered through that write-back: an early `return` leaves a pending remainder neither checked nor advanced
+    for n_ in g.nodes:
+        if n_.kind == 'stmt' and isinstance(n_.ast, ast.Return) and (n_.ast.value is None or is_const(n_.ast.value, None)) and n_ in g.reachable():
+            okn = bool(wb) and g.must_pass(g.entry, n_, wb)
+            R.ob(rid, f, n_.ast, okn, text=f'`{short(n_.ast)}` (no delimiter in this chunk) only after the remainder was stored', detail='' if okn else
+                 'the scanner gives up on the chunk without looking at the remainder carried from the previous chunk: a delimiter that began there and '
+                 'continues in this chunk (e.g. a chunk without CR) is missed, sections merge or the last one is never reported',
+                 why='the markup must not depend on where the chunk boundaries fall', key_extra='early-none')
     return f
 
 
@@ -483,6 +491,8 @@ def check(P, R):
 
     # ---- g: header terminator cut by the chunk end
     check_end_headers(P, R, consts)
+    from . import c04
+    c04.check_reader_premise(P, R, 'C06.f', 'the scanner is fed the whole body however the stream fragments its reads: a short read must not end the body early')
 
 
 def check_end_headers(P, R, consts):
@@ -534,3 +544,23 @@ def check_end_headers(P, R, consts):
         elif isinstance(v, ast.Subscript) and isinstance(v.slice, ast.Slice) and 'expected' in src(v.value):
             continue
     R.ob('C06.g', f, stores[0] if stores else f.node, ok, text='headers_end_expected = CRLFx2[len(head seen):]', detail=det)
+    # a pending continuation that was found (the header end is reported) must be cleared before the position is returned
+    gh, rdh = f.cfg, f.rd
+    pend = [n for n in gh.nodes if n.kind == 'test' and compare_parts(n.ast) and is_const(compare_parts(n.ast)[2], None)
+            and compare_parts(n.ast)[1] in (ast.Is, ast.IsNot) and isinstance(compare_parts(n.ast)[0], ast.Name)
+            and any(d.value is not None and dotted(d.value) == 'self.headers_end_expected' for d in rdh.at(n, compare_parts(n.ast)[0].id))]
+    clears = [n for n in gh.nodes if n.kind == 'stmt' and isinstance(n.ast, ast.Assign) and any(dotted(t) == 'self.headers_end_expected' for t in n.ast.targets)
+              and is_const(n.ast.value, None)]
+    pos_rets = [n for n in gh.nodes if n.kind == 'stmt' and isinstance(n.ast, ast.Return) and n.ast.value is not None and not is_const(n.ast.value, None)]
+    if pend:
+        for pt in pend:
+            lab = 'true' if compare_parts(pt.ast)[1] is ast.IsNot else 'false'      # something is pending
+            for r in pos_rets:
+                reach_uncleared = any(gh.can_reach(s_, r, avoid_nodes=clears) for s_ in T.succ_by_label(pt, lab))
+                if not any(gh.can_reach(s_, r) for s_ in T.succ_by_label(pt, lab)):
+                    continue
+                R.ob('C06.g', f, r.ast, not reach_uncleared, text=f'`{short(r.ast)}`: the pending header-end continuation is cleared before the end is reported',
+                     detail='' if not reach_uncleared else
+                     'the header end completed across a chunk boundary is reported while the carried continuation stays set: the next part\'s header scan starts '
+                     'with a stale continuation and that part (and what follows) is lost or refused',
+                     why='a read boundary inside CRLFCRLF must not change the result', key_extra='clear-on-found')
